@@ -16,6 +16,7 @@ RULE = ('For each accepted AST (expressions, predicates, properties with metadat
         'invalid schema, sanity_check) applied to the AST, to a random sub-tree, or to the previous result; after every '
         'call all ASTs handed out so far are re-snapshotted. evaluations = API calls bracketed by snapshots; '
         'non-trivial = the call returned a new object or raised; distinct = (API sequence, input shape).')
+RULE_ADDED = ' Since the seeding rounds: but(data_type=...), postconditions on cast copies, sequence fields (shorter/longer/reversed tuples), annotated nodes, aggregates over tiny reference sets, half-open infinite ranges, same-alias-twice scenario, human-written corpus.'
 ASSUMPTIONS = ['direct constructor calls on caller-owned children (Not(a), And(a, b)) are outside the statement and not '
                'judged; the by-design in-place narrowing of nodes created inside the same call is not a violation']
 FLOORS = {
